@@ -146,19 +146,23 @@ def parseCookieValue (raw : Bytes) (allowDoubleQuote : Bool) : Option (Bytes × 
     | none => (raw, false)
   if body.all validCookieValueByte then some (body, quoted) else none
 
-/-- One line of `readCookies(h, filter)`: the `name=value` parts between `;`, each trimmed, parts
-    with an invalid name, another name than `filter` (when non-empty) or an invalid value skipped. -/
+/-- One `;`-separated part of a `Cookie` line in `readCookies(h, filter)`: trimmed; skipped when
+    empty, when the name is invalid, when it is another name than `filter` (if non-empty) or when
+    the value is invalid. -/
+def readCookiePart (filter part : Bytes) : Option (Bytes × Bytes) :=
+  let part := trimString part
+  if part.isEmpty then none else
+  let (name, val) := cut eqSign part
+  let name := trimString name
+  if !cookieNameValid name then none
+  else if !filter.isEmpty && filter != name then none
+  else match parseCookieValue val true with
+    | some (v, _) => some (name, v)
+    | none => none
+
+/-- One line of `readCookies(h, filter)`: the `name=value` parts between `;`. -/
 def readCookieLine (line filter : Bytes) : List (Bytes × Bytes) :=
-  (splitOn semicolon (trimString line)).filterMap fun part =>
-    let part := trimString part
-    if part.isEmpty then none else
-    let (name, val) := cut eqSign part
-    let name := trimString name
-    if !cookieNameValid name then none
-    else if !filter.isEmpty && filter != name then none
-    else match parseCookieValue val true with
-      | some (v, _) => some (name, v)
-      | none => none
+  (splitOn semicolon (trimString line)).filterMap (readCookiePart filter)
 
 /-- `readCookies(h, filter)` over the request's `Cookie` header lines -/
 def readCookies (lines : List Bytes) (filter : Bytes) : List (Bytes × Bytes) :=
